@@ -59,6 +59,15 @@ pub struct SimConfig {
     pub crash_permille: u32,
     #[serde(default)]
     pub crash_max: u32,
+    /// Disk faults: fail the k-th (1-based) write to a regular file (any
+    /// process) with ENOSPC / the k-th read from a regular file with EIO.
+    #[serde(default)]
+    pub fail_write_at: Option<u32>,
+    #[serde(default)]
+    pub fail_read_at: Option<u32>,
+    /// Only reads of this process from descriptor 0 are counted (None: all).
+    #[serde(default)]
+    pub fail_read_stdin_of: Option<i32>,
 }
 
 impl Default for SimConfig {
@@ -75,6 +84,9 @@ impl Default for SimConfig {
             record_history: true,
             crash_permille: 0,
             crash_max: 0,
+            fail_write_at: None,
+            fail_read_at: None,
+            fail_read_stdin_of: None,
         }
     }
 }
@@ -99,6 +111,8 @@ pub struct SimCtl {
     pub history: RefCell<Vec<Ev>>,
     pub counters: RefCell<BTreeMap<&'static str, u64>>,
     alloc_count: Cell<u32>,
+    file_write_count: Cell<u32>,
+    file_read_count: Cell<u32>,
     spawn_count: Cell<u32>,
     new_child_pids: RefCell<Vec<Pid>>,
     /// Faults are switched off when this is set (e.g. during set-up).
@@ -118,6 +132,8 @@ impl SimCtl {
             history: RefCell::new(Vec::new()),
             counters: RefCell::new(BTreeMap::new()),
             alloc_count: Cell::new(0),
+            file_write_count: Cell::new(0),
+            file_read_count: Cell::new(0),
             spawn_count: Cell::new(0),
             new_child_pids: RefCell::new(Vec::new()),
             quiet: Cell::new(false),
@@ -147,6 +163,11 @@ impl SimCtl {
 
     pub fn alloc_count(&self) -> u32 {
         self.alloc_count.get()
+    }
+
+    /// Writes to / reads from regular files counted so far (fault positions).
+    pub fn file_io_counts(&self) -> (u32, u32) {
+        (self.file_write_count.get(), self.file_read_count.get())
     }
 
     /// Appends a record to the history (used by probes and by the kernel hooks).
@@ -240,6 +261,37 @@ impl SimHook for SimCtl {
         } else {
             false
         }
+    }
+
+    fn fail_io(&self, pid: Pid, fd: yash_env::io::Fd, is_write: bool) -> Option<yash_env::system::Errno> {
+        if self.quiet.get() {
+            return None;
+        }
+        if is_write {
+            let k = self.file_write_count.get() + 1;
+            self.file_write_count.set(k);
+            if self.cfg.fail_write_at == Some(k) {
+                self.count("enospc");
+                self.fault();
+                self.record(pid.0, "enospc", k as i64, fd.0 as i64, "");
+                return Some(yash_env::system::Errno::ENOSPC);
+            }
+        } else {
+            if let Some(p) = self.cfg.fail_read_stdin_of
+                && (p != pid.0 || fd.0 != 0)
+            {
+                return None;
+            }
+            let k = self.file_read_count.get() + 1;
+            self.file_read_count.set(k);
+            if self.cfg.fail_read_at == Some(k) {
+                self.count("eio");
+                self.fault();
+                self.record(pid.0, "eio", k as i64, fd.0 as i64, "");
+                return Some(yash_env::system::Errno::EIO);
+            }
+        }
+        None
     }
 
     fn event(&self, pid: Pid, kind: &'static str, a: i64, b: i64) {
